@@ -527,6 +527,9 @@ func (b *Built) outcome(o *Obj, key string, t TRef) (reflect.Value, error) {
 	case "wrapsafe":
 		// an ordinary error that wraps a safe one: not itself safe for clients
 		return reflect.Value{}, fmt.Errorf("lookup of %s failed: %w", oc.Msg, graphql.NewSafeError("safe part of %s", oc.Msg))
+	case "custom":
+		// a user-defined SanitizedError whose public text differs from its Error() text
+		return reflect.Value{}, CustomErr{Detail: "detail of " + oc.Msg, Public: "public " + oc.Msg}
 	case "panic":
 		panic(oc.Msg)
 	}
@@ -602,8 +605,18 @@ func FailText(kind, msg string) string {
 	if kind == "wrapsafe" {
 		return fmt.Sprintf("lookup of %s failed: safe part of %s", msg, msg)
 	}
+	if kind == "custom" {
+		return "public " + msg // what SanitizedError() returns; Error() says "detail of ..."
+	}
 	return msg
 }
+
+// CustomErr is a user-defined error type that is safe for clients, with a public text that differs
+// from its Error() text.
+type CustomErr struct{ Detail, Public string }
+
+func (e CustomErr) Error() string          { return e.Detail }
+func (e CustomErr) SanitizedError() string { return e.Public }
 
 func ArgKey(name string, n int64) string { return fmt.Sprintf("%s(%d)", name, n) }
 
